@@ -161,4 +161,8 @@ func runC02(c *Ctx) {
 		})
 	})
 	c.Min("C02-R2", 11)
+
+	// integers handed out by accessors (cached total difficulties, balances, transaction and header fields, protocol
+	// constants) are never modified in place anywhere in the module: decided by the ownership rule of C05, shared here
+	c.Borrow("C05", runC05, map[string]string{"C05-R4": "C02-R3"})
 }
